@@ -65,7 +65,7 @@ func buildCorpus(dir, repoVal string, vals []string) error {
 	for k, val := range vals {
 		// a NUL makes the builder skip the file as binary; binary detection is not the subject here
 		val = strings.ReplaceAll(val, "\x00", "0")
-		name := val
+		name := val + ".txt" // a fixed extension: language detection by file name is not the subject here
 		g := fmt.Sprintf("qg%dq/", k)
 		docs := []index.Document{
 			{Name: g + "dir/" + name, Content: []byte("alpha NEEDLE beta\n"), Branches: []string{branch}},
